@@ -16,6 +16,7 @@ import (
 
 	"github.com/sourcegraph/zoekt"
 	"github.com/sourcegraph/zoekt/internal/verifkit/kit"
+	"github.com/sourcegraph/zoekt/query"
 )
 
 // pollCtx is a context that becomes cancelled at its k-th observation (a call
@@ -265,6 +266,13 @@ func TestVerif_C21(t *testing.T) {
 		o := kit.DefaultCorpus
 		o.MaxDocs = 10
 		c := c21Case{matchCase: genMatchCase(rt, o, kit.DefaultQuery, &labels)}
+		if g.Bool(50, "negtyperepo") {
+			// a deadline that hits the pre-evaluation of a negated type:repo
+			// sub-query must not add files either (sharded searcher only)
+			t1, _ := kit.GenQuery(g, &c.Corpus, kit.QueryOpts{MaxDepth: 0, FoldSafe: true}, 0)
+			t2 := kit.QSpec{Op: "substr", Pat: kit.Pick(g, []string{"foo", "a", "e", "needle", "o"}, "ntr")}
+			c.Queries = append(c.Queries, kit.QSpec{Op: "and", Kids: []kit.QSpec{t2, {Op: "not", Kids: []kit.QSpec{{Op: "type", Num: float64(query.TypeRepo), Kids: []kit.QSpec{t1}}}}}})
+		}
 		n := g.Int(3, 5, "nlimits")
 		lim := []int{0, 1, 2, 3, 5, 1000}
 		for i := 0; i < n; i++ {
@@ -282,7 +290,7 @@ func TestVerif_C21(t *testing.T) {
 			if g.Bool(35, "cancel") {
 				l.CancelAtPoll = g.Int(1, 40, "poll")
 				if g.Bool(50, "wall") {
-					l.WallNanos = int64(kit.Pick(g, []int{1, 1000, 100000, 2000000}, "wallns"))
+					l.WallNanos = int64(kit.Pick(g, []int{1, 1000, 20000, 100000, 300000, 2000000}, "wallns"))
 				} else {
 					l.CancelAfterMicros = kit.Pick(g, []int{1, 50, 500, 3000}, "cancelus")
 				}
